@@ -239,6 +239,16 @@ func runCase(idx int, class string, n, cap int, reqs []req, cancelAt int, slow b
 			o.Stuck = fmt.Sprintf("no progress for 20s: done_closed=%v errc_closed=%v", o.DoneClosed, o.ErrcClosed)
 			doneCh, errc = nil, nil
 		}
+		// after a cancellation only the merged error stream has to end: startScanEngine does not wait
+		// for done once the context is cancelled, and the sender (unconditional error sends) may stay blocked
+		if cancelled && cancelAt >= 0 && errc == nil && doneCh != nil {
+			select {
+			case <-doneCh:
+				o.DoneClosed = true
+			case <-time.After(50 * time.Millisecond):
+			}
+			doneCh = nil
+		}
 	}
 	if !released {
 		released = true
@@ -275,17 +285,25 @@ func main() {
 	count := flag.Int("n", 40, "number of complete runs")
 	cancels := flag.Int("cancel", 0, "number of cancel-at-k runs")
 	maxReq := flag.Int("maxreq", 1000, "max requests per run")
+	only := flag.Int("only", -1, "run only the case with this index (same seed, same script)")
 	flag.Parse()
 	w := hlib.NewOut(*out)
 	defer w.Close()
 	r := hlib.NewRand(*seed)
 	workers := []int{1, 2, 7, 16, 64}
 	idx := 0
+	put := func(mk func() obs) {
+		if *only < 0 || *only == idx {
+			w.Put(mk())
+			w.Flush()
+		}
+		idx++
+	}
 	// fixed small cases first
-	w.Put(runCase(idx, "empty", 1, 1, nil, -1, false))
-	idx++
-	w.Put(runCase(idx, "tiny", 2, 1, []req{{0, false, true, true}, {1, true, true, true}, {2, false, false, true}, {3, false, true, false}, {4, false, true, true}}, -1, false))
-	idx++
+	put(func() obs { return runCase(idx, "empty", 1, 1, nil, -1, false) })
+	put(func() obs {
+		return runCase(idx, "tiny", 2, 1, []req{{0, false, true, true}, {1, true, true, true}, {2, false, false, true}, {3, false, true, false}, {4, false, true, true}}, -1, false)
+	})
 	for i := 0; i < *count; i++ {
 		n := workers[r.Intn(len(workers))]
 		cnt := r.Intn(*maxReq + 1)
@@ -299,14 +317,14 @@ func main() {
 		case 2:
 			class, pBad, pFill, pWr = "write-fail", 0, 0, 50
 		}
-		w.Put(runCase(idx, class, n, []int{0, 1, 100}[r.Intn(3)], genReqs(r, cnt, pBad, pFill, pWr), -1, r.Intn(3) == 0))
-		idx++
+		capv, reqs, slow := []int{0, 1, 100}[r.Intn(3)], genReqs(r, cnt, pBad, pFill, pWr), r.Intn(3) == 0
+		put(func() obs { return runCase(idx, class, n, capv, reqs, -1, slow) })
 	}
 	for i := 0; i < *cancels; i++ {
 		n := workers[r.Intn(len(workers))]
 		cnt := 1 + r.Intn(400)
 		k := r.Intn(cnt/2 + 2)
-		w.Put(runCase(idx, "cancel", n, []int{0, 1, 100}[r.Intn(3)], genReqs(r, cnt, 40, 20, 20), k, r.Intn(2) == 0))
-		idx++
+		capv, reqs, slow := []int{0, 1, 100}[r.Intn(3)], genReqs(r, cnt, 40, 20, 20), r.Intn(2) == 0
+		put(func() obs { return runCase(idx, "cancel", n, capv, reqs, k, slow) })
 	}
 }
